@@ -751,6 +751,16 @@ func (ex *Exec) specCall(x ECall, env *SpecEnv) Val {
 			ex.specFail("idx() outside a loop")
 		}
 		return Scalar{ex.loopIdx(env.fr, li, env.lst), intT}
+	case "proving":
+		// proving(e): e where the clause is a proof obligation, true where the clause is assumed. For marker terms that
+		// should trigger a definitional axiom for the cell being proved but not for every instance of an assumed invariant.
+		if len(x.Args) != 1 {
+			ex.specFail("proving takes one argument")
+		}
+		if ex.proving {
+			return Scalar{ex.evalBool(x.Args[0], env), types.Typ[types.Bool]}
+		}
+		return Scalar{True, types.Typ[types.Bool]}
 	case "min", "max":
 		need(2)
 		a, b := ex.scalar(argv(0)), ex.scalar(argv(1))
